@@ -576,13 +576,43 @@ def with_nested(body):
     return [body] + body.nested()
 
 
+def same_crate_helpers(body, depth=2):
+    """functions of the body's own crate that it calls (directly or through one more level), outermost first: where a refactor that splits a
+    verifier into per-item helpers puts its checks"""
+    out, seen, frontier = [], {body.path}, [body]
+    for _ in range(depth):
+        nxt = []
+        for b in frontier:
+            for x in [b] + list(b.nested()):
+                for c in x.calls:
+                    for n in (c.res, c.callee):
+                        hb = body.facts.body(n) if n else None
+                        if hb is not None:
+                            if hb.crate == body.crate and hb.path not in seen and not getattr(hb, "generated", False):
+                                seen.add(hb.path)
+                                out.append(hb)
+                                nxt.append(hb)
+                            break
+        frontier = nxt
+    return out
+
+
 def reqerr(R, key, bodies, table, what=""):
-    """table: {(adt, variant): min_count}. Each listed error variant is constructed at >= min reachable sites."""
+    """table: {(adt, variant): min_count}. Each listed error variant is constructed at >= min reachable sites (counted in the named bodies and,
+    when they fall short, in the same-crate helpers they call: a rejection moved into a per-item helper is still made)."""
     ok = True
     for b in bodies:
         R.fn(b)
+    wide = None
     for (adt, variant), n in table.items():
         sites = count_variant(bodies, adt, variant)
+        if len(sites) < n:
+            if wide is None:
+                wide = list(bodies)
+                for b in bodies:
+                    if b.kind in ("Fn", "AssocFn"):
+                        wide += [h for h in same_crate_helpers(b) if h not in wide]
+            sites = count_variant(wide, adt, variant)
         R.sites += len(sites)
         ikey = "%s/%s" % (key, variant)
         if len(sites) < n:
@@ -722,6 +752,14 @@ def cmp_table(R, key, body, A, B, expect, classify, what="", min_sites=1, max_si
     or None when the site is irrelevant."""
     R.fn(body)
     found = find_cmp(body, A, B)
+    if not found and body.kind in ("Fn", "AssocFn"):
+        # the comparison may have moved into a helper of the same crate that this function calls (a verifier split into per-item checks)
+        for hb in same_crate_helpers(body):
+            try:
+                if find_cmp(hb, A, B):
+                    return cmp_table(R, key, hb, A, B, expect, classify, what=(what or "cmp") + " (in helper %s)" % short(hb.path), min_sites=min_sites, max_sites=max_sites, S=S, strict=strict, arith=arith, only_ops=only_ops)
+            except AnchorLost:
+                continue
     R.sites += len(found)
     good = 0
     ok = True
